@@ -284,28 +284,33 @@ pub fn replay_compiled(w: &Wit) -> String {
     for k in 0..10 { regs[k] = rebase(w.reg[k]); }
     let stack_rel = (0..10).any(|k| near(w.reg[k], w.stack.0, w.stack.1).is_some()) || w.insn.dst == 10 || w.insn.src == 10;
     let p = if w.pc > 64 { w.pc } else { 64 };
-    let mk = |o: Obs| build(w, p, &regs, o);
-    let b0 = match mk(Obs::Tag) { Ok(b) => b, Err(e) => return format!("NOT-REPLAYABLE {}", e) };
-    // what the ISA prescribes when the stack is not involved (known before the first run, in case the run dies)
-    let lay0 = SLayout { mbuff: SRegion { base: mbuff_base, len: mbuff_len as u64 }, mem: SRegion { base: mem_base, len: mem_len as u64 }, stack: SRegion { base: 0, len: 0 }, allowed: None };
+    let b0 = match build(w, p, &regs, Obs::Tag) { Ok(b) => b, Err(e) => return format!("NOT-REPLAYABLE {}", e) };
     let mut pre = SState { reg: [0; 11], pc: b0.p, depth: 0, frames: [SFrame { ret: 0, saved: [0; 4], usage: 256 }; 8] };
     for k in 0..10 { pre.reg[k] = regs[k]; }
     let o0 = SOracle { load_data: 0, helper_present: false, helper_ret: 0, entry_usage: None, next_imm: w.next_imm };
-    let want_pre = spec_step(&pre, w.insn, &lay0, &o0);
-    say(if stack_rel { "EXPECT-UNKNOWN" } else if want_pre.kind == SKind::Err { "EXPECT-ERR" } else { "EXPECT-OK" });
-    // r10 as the engine sets it
+    // r10 as the engine sets it: observed with the instruction under test replaced by a no-op, so that the
+    // stack region is known BEFORE the instruction is ever run
+    say("EXPECT-UNKNOWN");
     say("RUN r10");
-    let b10 = match mk(Obs::Reg(10)) { Ok(b) => b, Err(e) => return format!("NOT-REPLAYABLE {}", e) };
-    let r10 = if stack_rel { match run_compiled(w.engine, &b10.prog, &mut mem, &mut mbuff, w.load_data) { Ok(v) => v, Err(e) => return format!("NOT-REPLAYABLE {}", e) } } else { 0 };
+    let nop = Wit { insn: SInsn { opc: 0xbf, dst: 0, src: 0, off: 0, imm: 0 }, ..clone_wit(w) };
+    let b10 = match build(&nop, p, &regs, Obs::Reg(10)) { Ok(b) => b, Err(e) => return format!("NOT-REPLAYABLE {}", e) };
+    let r10 = match run_compiled(w.engine, &b10.prog, &mut mem, &mut mbuff, w.load_data) { Ok(v) => v, Err(e) => return format!("NOT-REPLAYABLE {}", e) };
     pre.reg[10] = r10;
-    let lay = SLayout { stack: SRegion { base: r10.wrapping_sub(512), len: if stack_rel { 512 } else { 0 } }, ..lay0 };
+    // registers that pointed into the witness stack are re-based on the real one
+    for k in 0..10 {
+        if let Some(d) = near(w.reg[k], w.stack.0, w.stack.1) { if near(w.reg[k], w.mem.0, w.mem.1).is_none() && near(w.reg[k], w.mbuff.0, w.mbuff.1).is_none() { regs[k] = ((r10 as i128 - 512) + d) as u64; pre.reg[k] = regs[k]; } }
+    }
+    let mk = |o: Obs| build(w, p, &regs, o);
+    let b0 = match mk(Obs::Tag) { Ok(b) => b, Err(e) => return format!("NOT-REPLAYABLE {}", e) };
+    let lay0 = SLayout { mbuff: SRegion { base: mbuff_base, len: mbuff_len as u64 }, mem: SRegion { base: mem_base, len: mem_len as u64 }, stack: SRegion { base: r10.wrapping_sub(512), len: 512 }, allowed: None };
+    let lay = lay0;
     // refill as run_compiled will, so that a load sees what the spec is told it sees
     for (k, b) in mem.iter_mut().enumerate() { *b = (w.load_data >> (8 * (k % 8))) as u8; }
     for (k, b) in mbuff.iter_mut().enumerate() { *b = (w.load_data >> (8 * (k % 8))) as u8; }
     let want0 = spec_step(&pre, w.insn, &lay, &o0);
     let load_data = match want0.access {
-        SAccess::Load { addr, width } if want0.kind != SKind::Err && !stack_rel => { let mut v = 0u64; for k in 0..width as u64 { v |= (unsafe { std::ptr::read_volatile((addr + k) as *const u8) } as u64) << (8 * k); } v }
-        SAccess::AtomicAdd { addr, width, .. } if want0.kind != SKind::Err && !stack_rel => { let mut v = 0u64; for k in 0..width as u64 { v |= (unsafe { std::ptr::read_volatile((addr + k) as *const u8) } as u64) << (8 * k); } v }
+        SAccess::Load { addr, width } if want0.kind != SKind::Err => { let mut v = 0u64; for k in 0..width as u64 { v |= (unsafe { std::ptr::read_volatile((addr + k) as *const u8) } as u64) << (8 * k); } v }
+        SAccess::AtomicAdd { addr, width, .. } if want0.kind != SKind::Err => { let mut v = 0u64; for k in 0..width as u64 { v |= (unsafe { std::ptr::read_volatile((addr + k) as *const u8) } as u64) << (8 * k); } v }
         _ => 0,
     };
     let want = spec_step(&pre, w.insn, &lay, &SOracle { load_data, ..o0 });
@@ -324,7 +329,7 @@ pub fn replay_compiled(w: &Wit) -> String {
     }
     // memory effect of a store / atomic add, read back from the real buffer after the tag run
     match want.access {
-        SAccess::Store { addr, width, val } | SAccess::AtomicAdd { addr, width, val } if !stack_rel => {
+        SAccess::Store { addr, width, val } | SAccess::AtomicAdd { addr, width, val } if !in_stack(addr, r10) => {
             let mut v = 0u64;
             for k in 0..width as u64 { v |= (unsafe { std::ptr::read_volatile((addr + k) as *const u8) } as u64) << (8 * k); }
             let expect = match want.access { SAccess::AtomicAdd { .. } => load_data.wrapping_add(val) & if width == 8 { u64::MAX } else { 0xffff_ffff }, _ => val };
@@ -342,6 +347,10 @@ pub fn replay_compiled(w: &Wit) -> String {
     }
     format!("NOT-REPRODUCED at pc {}: the real {:?} engine agrees with the ISA on the re-based witness", b0.p, w.engine)
 }
+
+fn in_stack(addr: u64, r10: u64) -> bool { addr >= r10.wrapping_sub(512) && addr < r10 }
+
+fn clone_wit(w: &Wit) -> Wit { Wit { engine: w.engine, insn: w.insn, next_imm: w.next_imm, reg: w.reg, pc: w.pc, n: w.n, depth: w.depth, mem: w.mem, mbuff: w.mbuff, stack: w.stack, load_data: w.load_data } }
 
 fn show(w: &Wit) -> String { format!("insn opc={:#04x} dst={} src={} off={} imm={}", w.insn.opc, w.insn.dst, w.insn.src, w.insn.off, w.insn.imm) }
 
